@@ -316,6 +316,9 @@ func c03(r *h.Result, rng *h.Rng, tier string, replay string) error {
 		if err != nil {
 			return err
 		}
+		if done, err := c03wReplay(r, raw); done {
+			return err
+		}
 		var f struct {
 			Replay c03Replay `json:"replay"`
 		}
@@ -405,6 +408,9 @@ func c03(r *h.Result, rng *h.Rng, tier string, replay string) error {
 		if err := b.flush(r); err != nil {
 			return err
 		}
+	}
+	if err := c03wStreams(r, rng.Fork(), tier); err != nil {
+		return err
 	}
 	r.Sample(map[string]any{"stream": "loki", "body": `{"streams":[{"stream":{"a":"b"},"values":[]},{"stream":{"c":"d"},"values":[["1700000000000000000","x",1.5]]}]}`,
 		"rows": "one row: fingerprint of {c=d}, ts 1700000000000000000, line x, value 1.5, type 0 (both)"})
